@@ -173,6 +173,8 @@ class StreamModel:
         self.nexc = 0
         self.other: Optional['StreamModel'] = None
         self.eof_seen = False
+        self.maybe_eof = False
+        self.stale_pause = False
         self.deferred: Optional[Violation] = None
         # (start, end) in stream units of every separator match returned
         self.matches: List[tuple] = []
@@ -247,6 +249,10 @@ class StreamModel:
             self.next_seg()
             self.labels.add('exc-raised')
             return
+
+        if kind in ('read', 'readall', 'exact'):
+            # (these always re-evaluate the pause state)
+            self.stale_pause = False
 
         if kind in ('read', 'readall'):
             n = op[1] if kind == 'read' else -1
@@ -340,6 +346,7 @@ class StreamModel:
                 self.matches.append((self.consumed + e - sl,
                                      self.consumed + e))
                 self.take(e)
+                self.stale_pause = False
                 return
 
             if okind != partial_kind:
@@ -363,7 +370,13 @@ class StreamModel:
                 if not window_possible:
                     self.labels.add('incomplete')
                     if t == 'eof':
-                        self.eof_seen = True
+                        # everything up to EOF came back; whether EOF was
+                        # what ended the call is the caller's to confirm
+                        self.maybe_eof = True
+                    elif q:
+                        # this path of readuntil() frees buffer space
+                        # without resuming a paused channel
+                        self.stale_pause = True
                 return
 
             # documented escape: the receive window filled up before a
@@ -373,11 +386,21 @@ class StreamModel:
                           'contains a separator ending at %d' % (len(q), e))
 
             if not window_possible:
-                self.fail('early-partial', op, 'partial of %d units (+%d '
-                          'other) below the window of %d with %d more '
-                          'before %r' % (len(q), self.other_bound(),
-                                         self.limit, len(r) - len(q), t))
+                detail = 'partial of %d units (+%d other) below the ' \
+                    'window of %d with %d more before %r' % \
+                    (len(q), self.other_bound(), self.limit,
+                     len(r) - len(q), t)
 
+                if not self.stale_pause:
+                    self.fail('early-partial', op, detail)
+
+                # known: the channel was left paused by the readuntil()
+                # that a signal interrupted
+                self.defer('early-partial', op, detail + ' (after a '
+                           'readuntil/readline that a signal interrupted)',
+                           'early-partial:after-signal')
+
+            self.stale_pause = False
             self.take(len(q))
             self.labels.add('window-full')
             return
@@ -430,9 +453,11 @@ class StreamModel:
 
         self.consumed += len(v)
 
-        if not v and okind == 'ret' and self.done() and \
-                (kind in ('readall', 'line') or kind == 'read' and op[1]):
-            self.eof_seen = True
+        if not v and okind == 'ret' and self.done():
+            if kind == 'readall' or kind == 'read' and op[1]:
+                self.eof_seen = True
+            elif kind == 'line':
+                self.maybe_eof = True
 
 
 def _short(out) -> str:
@@ -863,6 +888,10 @@ async def drain_coro(reader, model, enc, how, labels, eof_check):
 
         out = await do_op(reader, enc, op)
         model.check(op, out)
+
+        if model.maybe_eof and reader.at_eof():
+            model.eof_seen = True
+
         eof_check(reader, model, op)
         guard -= 1
 
